@@ -222,6 +222,15 @@ pub fn check_c09_record(v: &View, origin: &str, out: &mut Vec<Violation>) {
             ));
         }
     }
+    if let Some(l) = v.enc_length {
+        if l != v.encoded.len() {
+            out.push(viol(
+                "C04",
+                "C04/Encodable::length()-inexact",
+                format!("length() = {l}, encoding is {} bytes: a list of records would be framed wrongly", v.encoded.len()),
+            ));
+        }
+    }
     if v.encoded.len() > refrec::MAX {
         out.push(viol(
             "C09",
@@ -247,7 +256,7 @@ pub fn check_c10(v: &View, rcx: &RecCtx, out: &mut Vec<Violation>) {
     if kind == PkKind::Secp && pk.len() != 33 {
         return; // 65-byte keys are outside the property
     }
-    if kind == PkKind::Ed && rc::ed_pk_class(&pk) != rc::EdPkClass::Valid {
+    if kind == PkKind::Ed && rc::ed_pk_class(&pk) == rc::EdPkClass::Invalid {
         return;
     }
     let Some(exp) = refrec::node_id_of(kind, &pk, lib) else {
